@@ -1,11 +1,15 @@
 #!/bin/sh
 # usage: run_check.sh <property> quick|thorough     |  run_check.sh <property> replay <file>
+# VERIF_HOME / VERIF_REPO redirect to snapshots for background runs; defaults are /verif and /repo.
 export GOFLAGS=-mod=mod GOPROXY=off GOSUMDB=off GOTOOLCHAIN=local GOWORK=off
-cd /verif
-if [ ! -x /verif/bin/check ] || [ -n "$(find /verif/sim/cmd /verif/sim/instrument /verif/sim/driver -newer /verif/bin/check -name '*.go' 2>/dev/null | head -1)" ]; then
-  (cd /verif/sim && go1.26.8 build -o /verif/bin/check ./cmd/check) || { echo "INFRA: cannot build /verif/bin/check"; exit 2; }
+H="${VERIF_HOME:-/verif}"
+export VERIF_HOME="$H"
+cd "$H" || exit 2
+if [ ! -x "$H/bin/check" ] || [ -n "$(find "$H/sim/cmd" "$H/sim/instrument" "$H/sim/driver" -newer "$H/bin/check" -name '*.go' 2>/dev/null | head -1)" ]; then
+  mkdir -p "$H/bin"
+  (cd "$H/sim" && go1.26.8 build -o "$H/bin/check" ./cmd/check) || { echo "INFRA: cannot build $H/bin/check"; exit 2; }
 fi
 case "$2" in
-  replay) exec /verif/bin/check "$1" --replay "$3" ;;
-  *) exec /verif/bin/check "$1" --tier "${2:-quick}" ;;
+  replay) exec "$H/bin/check" "$1" --replay "$3" ;;
+  *) exec "$H/bin/check" "$1" --tier "${2:-quick}" ;;
 esac
